@@ -1,4 +1,6 @@
 //! C06 — message size limits are enforced exactly and without collateral loss.
+//! Case kinds: `enc` / `dec` (framing.rs), `lim.srv` / `lim.cli` / `lim.gen` (below), and — added by the
+//! proactive dimension audit, see the header of c06_x.rs — `lim.seq`, `lim.genp`, `dech`.
 use crate::common::*;
 use crate::framing::*;
 
